@@ -6,7 +6,7 @@ import SaModel.Lemmas.C03TypeNew
 C01 / C03 — the "hidden rows" refinement: the refinement theorems and the end-to-end statements WITHOUT the first clause
 of `Safe` ("no dictionary with non-nullable keys below a nullable struct / fixed-size list").
 
-Why the old statements need `Safe`: `dec b` reads every slot of a builder, also the slots hidden below a null ancestor.
+Why the statements about `dec` (Props/C01Refine.lean) need `Safe`: `dec b` reads every slot of a builder, also the slots hidden below a null ancestor.
 A dictionary with NON-nullable keys whose parent row is null receives `serialize_default` and stores the placeholder key
 0, which designates nothing while the dictionary is empty and the FIRST real value later: `dec` of that builder is not
 append-only (`dict_placeholder_unstable`), although the slot is hidden and the property says such slots may hold anything.
@@ -25,11 +25,12 @@ The refinement below speaks about OBSERVABLE rows (vocabulary: Lemmas/C01ObsDefs
        push_appends_det    … and if no row of b is undetermined (`Det b`: every strictly well-formed state, the root of
                            `to_marrow` after every record) then `dec b' = dec b ++ [lv]` and `Det b'`
   R2'  push_interp'        … and `interpDT ext dt n md x = ok lv` for the builder of a field of type dt
-  R3'  runRows_interp'     `runRows_interp` without `hsafe`
+  R3'  runRows_interp'     `runRows_interp` without `hsafe` and with the weaker schema predicate `coveredWF` for `coveredF`
+       runRows_rows'       `runRows_rows` without `hsafe` (no hypothesis on schema or records)
   C01_build_decode'        `C01_build_decode` without `hsafe`
   C03_wfS'                  `C03_wfS` with `hsafe` replaced by `Safe root0 ∨ coveredF` (see the theorem)
-The old statements (Props/C01Refine.lean, Props/C01.lean, Props/C03.lean) are untouched; under `WFB`/`Safe` they are
-special cases (`push_appends_of_refines`).
+The `Safe`-carrying statements (Props/C01Refine.lean, Props/C01.lean, `C03_wfS` of Props/C03.lean) stand beside these;
+under `WFB`/`Safe` they are special cases (`push_appends_of_refines`).
 -/
 namespace SaModel.Props.C01
 open SaModel SaModel.Build SaModel.Spec
@@ -59,8 +60,8 @@ theorem pushDefault_refines (b : B) (k : Nat) (b' : B) (hwf : WFH b) (hnd : NoDi
 theorem decH_sound (b : B) : Refines ((dec b).map some) (decH b) := Build.decH_sound b
 theorem decH_length (b : B) : (decH b).length = (dec b).length := Build.decH_length b
 
-/-- under the strict invariant every row is determined, and the strict invariant implies the weak one: the new
-statements contain the old ones -/
+/-- under the strict invariant every row is determined, and the strict invariant implies the weak one: the statements of
+this file contain the `Safe`-carrying ones -/
 theorem decH_of_WFB (b : B) (h : WFB b) : decH b = (dec b).map some := Build.decH_of_WFB b h
 theorem WFH_of_WFB (b : B) (h : WFB b) : WFH b := Build.WFH_of_WFB b h
 theorem NoDictKey_of_Safe (b : B) (h : Safe b) : NoDictKey b := Build.NoDictKey_of_Safe b h
@@ -74,7 +75,7 @@ theorem push_appends_det (ext : Ext) (x : SVal) (b b' : B) (hw : WFH b) (hn : No
   let ⟨a, b, c, lv, d, _⟩ := Build.push_appends_det ext x b b' hw hn hd h
   ⟨a, b, c, lv, d⟩
 
-/-- the conclusion of the old R1 (`push_appends`) from R1', under the old hypothesis on the state -/
+/-- the conclusion of R1 (`push_appends`) from R1', under the strict invariant `WFB` -/
 theorem push_appends_of_refines (ext : Ext) (x : SVal) (b b' : B) (hwf : WFB b) (hnd : NoDictKey b)
     (h : push ext b x = .ok b') : ∃ lv, dec b' = dec b ++ [lv] :=
   let ⟨_, _, _, r⟩ := push_appends_det ext x b b' (Build.WFH_of_WFB b hwf) hnd (Det_of_WFB hwf) h
@@ -92,7 +93,7 @@ theorem runRows_rows' (ext : Ext) (fields : List Field) (rows : List SVal) (root
   let ⟨a, _, c, d, e, f⟩ := Build.runRows_rowsH ext fields rows root0 root h0 h
   ⟨a, c, d, e, f⟩
 
-/-! ### the former counter-example is inside the new statement -/
+/-! ### the counter-example `dict_placeholder_unstable` is inside R1' -/
 
 /-- the state of `dict_placeholder_unstable`: a non-nullable-key dictionary holding one placeholder key and no value -/
 def exPlaceholderDict : B :=
@@ -442,12 +443,14 @@ look at the union mode and at the nullability / metadata of the entries field). 
 sparse unions and nullable Map entries (repo fixes c63d82e, 25f1351 — `Lemmas.C03.newRoot_strict`), and for such a type a
 structurally valid array has exactly that type (`Lemmas.C03.wf_typeOf`, arbitrary arrays). -/
 
-/-- **C03 (`C03_wf'` for the tightened `Spec.WF`).**  Every array `to_marrow` returns is a structurally valid array WHOSE
-DATA TYPE EQUALS the data type of its field — child names, nullability, metadata, time units and zones, precision / scale,
-sizes, union mode and type ids, the map's sorted flag and entries field, dictionary key / value types — one array per
-field, every array of `rows.length` rows.  Hypotheses: those of `C03_wfS'` plus `hplain`, the exclusion of the KNOWN finding
-C03-map-entries-metadata (metadata on the ENTRIES field of a Map is dropped: marrow's `MapMeta` has no room for it; witness
-`entries_metadata_not_WF` in Props/C03.lean). -/
+/-- **C03, the headline (`Spec.WF` = `Spec.WFS` ∧ `Spec.typeOf a = f.dataType`).**  Every array `to_marrow` returns is a
+structurally valid array WHOSE DATA TYPE EQUALS the data type of its field — child names, nullability, metadata, time units
+and zones, precision / scale, sizes, union mode and type ids, the map's sorted flag and entries field, dictionary key / value
+types — one array per field, every array of `rows.length` rows.  Hypotheses: those of `C03_wfS'` (`hschema`: no
+`FixedSizeBinary(0)`, known finding C03-fixed-size-binary-0; `hsafe`: `Safe` of the fresh root OR `coveredF` of every field;
+`hext`: `ExtOK`; `hrows`: `SValOK`) plus `hplain`, the exclusion of the KNOWN finding C03-map-entries-metadata (metadata on the
+ENTRIES field of a Map is dropped: marrow's `MapMeta` has no room for it; witness `Props.C03.entries_metadata_not_WF` in
+Props/C03Typed.lean). -/
 theorem C03_wf' (ext : Ext) (fields : List Field) (rows : List SVal) (arrs : List Arr)
     (hschema : ∀ f ∈ fields, Lemmas.C03.SchemaOKF f)
     (hplain : ∀ f ∈ fields, Lemmas.C03.PlainF f)
